@@ -210,8 +210,9 @@ class C11(Prop):
     def run_impl(self, c):
         r = vloop.run(_run, c["n0"], c["cycles"])
         c["_devices"] = [o["devices"] for o in r["cycles"]]
+        c["_raw"] = r["raw"]        # (the chronological log is judged by the monitor; it is no part of the per-cycle behaviour)
         return {"outs": [o["out"] for o in r["cycles"]], "identity_ok": r["identity_ok"],
-                "no_leftover_tasks": all(o["other_tasks"] == 0 for o in r["cycles"]), "raw": r["raw"]}
+                "no_leftover_tasks": all(o["other_tasks"] == 0 for o in r["cycles"])}
 
     def _cin(self, c):
         # devices known at each loss: observed once from the traffic (ecoMAX and/or ecoSTER frames seen so far)
@@ -236,16 +237,14 @@ class C11(Prop):
     def model_many(self, cases):
         res = model.call_many("run_conn", [[True, self._cin(c)] for c in cases])
         fix = lambda o: [o[0], o[1], [[g, bool(k)] for g, k in o[2]], o[3], o[4], o[5], o[6]]
-        return [{"outs": [fix(o) for o in r], "identity_ok": True, "no_leftover_tasks": True, "raw": None} for r in res]
+        return [{"outs": [fix(o) for o in r], "identity_ok": True, "no_leftover_tasks": True} for r in res]
 
     def spec_many(self, cases, behaviours):
         res = model.call_many("P11", [[self._cin(c), b["outs"]] for c, b in zip(cases, behaviours)])
         # the whole chronological history (not cut into cycles) against the monitor of the event-level model (C11_sm)
-        mon = model.call_many("mon11", [b["raw"] for b in behaviours])
+        mon = model.call_many("mon11", [c.get("_raw", []) for c in cases])
         return [bool(r) and bool(m) and b["identity_ok"] for r, m, b in zip(res, mon, behaviours)]
 
-    def obs(self, c, b):
-        return {k: v for k, v in b.items() if k != "raw"}
 
     def nontrivial_key(self, c, mb):
         return repr(c["cycles"]) if any(d > 0 for d, _ in self._cin(c)) else None
